@@ -330,6 +330,7 @@ def register(R: Registry):
 
     # ------------------------------------------------ BranchTreeAssembler.__call__
     register_assembler(R)
+    register_tree_level(R)
 
 
 BT = "swcgeom/transforms/branch_tree.py"
@@ -355,27 +356,38 @@ def _swc_cols(S, name, n, ids=None, pids=None):
     return cols
 
 
-def branch_tree_input(S, pids, sizes):
-    """A BranchTree with the concrete topology `pids` (node j+1 hangs under pids[j+1]; one child per junction here) and,
-    for every edge, a resampled branch of sizes[edge] points with fully symbolic attributes."""
+def branch_tree_input(S, pids, sizes, order=None, exact=False):
+    """A BranchTree with the concrete topology `pids` (node j+1 hangs under pids[j+1]) and, for every edge, a resampled
+    branch of sizes[edge] points with fully symbolic attributes.  `order[p]` = the order in which the branches of junction p
+    are STORED in x.branches[p] (a permutation of the positions of p's children; default: child order).  `exact`: the last
+    point of every branch IS the position of its child junction (the same three symbols), as the resamplers deliver it."""
     from swcgeom.core import Branch, BranchTree, DictSWC
     from swcgeom.core.swc_utils import get_names, get_types
 
     n = len(pids)
-    nd = _frozen(PDict(_swc_cols(S, "J", n, ids=range(n), pids=pids)))
+    jcols = _swc_cols(S, "J", n, ids=range(n), pids=pids)
+    nd = _frozen(PDict(jcols))
     x = S.obj(BranchTree, ndata=nd, names=get_names(), types=get_types(), source="", comments=PList([]))
     x.frozen = True
     branches = {}
     blist = []
     for child in range(1, n):
         q = sizes[child - 1]
-        bnd = _frozen(PDict(_swc_cols(S, f"B{child}", q)))
+        bcols = _swc_cols(S, f"B{child}", q)
+        if exact:
+            for a in "xyz":
+                items = list(bcols[a].items)
+                items[q - 1] = jcols[a].items[child]
+                bcols[a] = _frozen(NArr((q,), items, "real"))
+        bnd = _frozen(PDict(bcols))
         att = S.obj(DictSWC, ndata=bnd, names=get_names(), types=get_types(), source="", comments=PList([]))
         att.frozen = True
         br = S.obj(Branch, attach=att, idx=_frozen(NArr((q,), list(range(q)), "int")), names=get_names(), source="")
         br.frozen = True
         branches.setdefault(pids[child], []).append(br)
         blist.append((pids[child], child, br))
+    for p, perm in (order or {}).items():
+        branches[p] = [branches[p][k] for k in perm]
     bd = PDict({k: _frozen(PList(v)) for k, v in branches.items()})
     bd.frozen = True
     x.fields["branches"] = bd
@@ -383,12 +395,12 @@ def branch_tree_input(S, pids, sizes):
 
 
 def register_assembler(R):
-    def setup(pids, sizes):
+    def setup(pids, sizes, order=None, exact=False):
         def f(S):
             from swcgeom.transforms.branch_tree import BranchTreeAssembler
 
-            x, blist = branch_tree_input(S, pids, sizes)
-            return dict(self=S.obj(BranchTreeAssembler), x=x, blist=blist)
+            x, blist = branch_tree_input(S, pids, sizes, order, exact)
+            return dict(self=S.obj(BranchTreeAssembler), x=x, blist=blist, exact=exact)
 
         return f
 
@@ -408,23 +420,63 @@ def register_assembler(R):
                 out.append(to_z3(E.sqrt(Sym(sq, "real"), nonneg_known=True), "real") < z3.RealVal(EPS))
         return z3.And(*out)
 
-    def expected_rows(v):
-        """the rows the property demands, in emission order: (attribute source, new id, new pid)"""
+    def _kids(v):
+        """{junction: [(child, its true branch)]} in child order"""
+        kids = {}
+        for (p, c, br) in v["blist"]:
+            kids.setdefault(p, []).append((c, br))
+        return kids
+
+    def single_file(v):
+        return all(len(k) == 1 for k in _kids(v).values())
+
+    def choices(v):
+        """every way the assembler may legally go through the tree: per junction an ORDERED list of (branch, child) pairs in which
+        every branch of the junction and every child occurs exactly once (which branch goes with which child is decided by
+        position, in which order the pairs are emitted is left open)"""
+        import itertools
+
+        kids = _kids(v)
+        per = []
+        for p, lst in kids.items():
+            cs, bs = [c for c, _ in lst], [b for _, b in lst]
+            per.append([(p, list(zip(bp, cp))) for bp in itertools.permutations(bs) for cp in itertools.permutations(cs)])
+        for combo in itertools.product(*per):
+            yield dict(combo)
+
+    def expected_rows(v, choice=None):
+        """the rows the property demands, in emission order: (attribute source, new id, new pid).  Junctions are visited in the
+        order of a stack; the (branch, child) pairs of a junction in the order given by `choice` (default: each child with its own
+        branch, in child order)."""
         x = v["x"]
         J = x.fields["ndata"].items
+        if choice is None:
+            choice = {p: [(br, c) for (c, br) in lst] for p, lst in _kids(v).items()}
         rows = [((J, 0), 0, -1)]
-        new_id = {0: 0}
-        # junctions are visited in the order of a stack: with one child per junction this is the chain order
-        for (p, c, br) in v["blist"]:
-            B = br.fields["attach"].fields["ndata"].items
-            q = B["x"].shape[0]
-            prev = new_id[p]
-            for i in range(1, q - 1):  # the q-2 interior samples, none dropped
-                rows.append(((B, i), len(rows), prev))
-                prev = len(rows) - 1
-            rows.append(((J, c), len(rows), prev))
-            new_id[c] = len(rows) - 1
+        stack = [(0, 0)]
+        while stack:
+            n, pid_new = stack.pop()
+            for (br, c) in choice.get(n, []):
+                B = br.fields["attach"].fields["ndata"].items
+                q = B["x"].shape[0]
+                prev = pid_new
+                for i in range(1, q - 1):  # the q-2 interior samples, none dropped
+                    rows.append(((B, i), len(rows), prev))
+                    prev = len(rows) - 1
+                rows.append(((J, c), len(rows), prev))
+                stack.append((c, len(rows) - 1))
         return rows
+
+    def choice_valid(v, choice):
+        """every chosen branch ends exactly where its chosen child sits"""
+        J = v["x"].fields["ndata"].items
+        out = []
+        for p, pairs in choice.items():
+            for (br, c) in pairs:
+                B = br.fields["attach"].fields["ndata"].items
+                q = B["x"].shape[0]
+                out += [val(B[a], q - 1) == val(J[a], c) for a in "xyz"]
+        return z3.And(*out) if out else z3.BoolVal(True)
 
     def _res(v):
         r = v["result"]
@@ -444,11 +496,7 @@ def register_assembler(R):
         n = len(expected_rows(o))
         return all(c.shape == (n,) for c in cols.values())
 
-    def post_rows(E, v, o):
-        cols = _res(v)
-        rows = expected_rows(o)
-        if cols is None or any(c.shape != (len(rows),) for c in cols.values()):
-            return False
+    def rows_equal(cols, rows):
         out = []
         for k, ((src, i), nid, npid) in enumerate(rows):
             out.append(val(cols["id"], k) == nid)
@@ -457,17 +505,56 @@ def register_assembler(R):
                 out.append(to_z3(cols[a].items[k], src[a].kind) == val(src[a], i))
         return z3.And(*out)
 
+    def post_rows(E, v, o):
+        cols = _res(v)
+        rows = expected_rows(o)
+        if cols is None or any(c.shape != (len(rows),) for c in cols.values()):
+            return False
+        if single_file(o):
+            return rows_equal(cols, rows)
+        # several branches under one junction: some legal pairing (each branch once, each child once, every branch with a child
+        # at its end position), emitted in some order
+        return z3.Or(*[z3.And(choice_valid(o, ch), rows_equal(cols, expected_rows(o, ch))) for ch in choices(o)])
+
     def post_is_tree(E, v, o):
         from swcgeom.core import Tree
 
         r = v["result"]
         return isinstance(r, Obj) and r.cls is Tree and r.uid not in E.entry_uids
 
+    def coincidence_hint(E, vars):
+        """proof step for the fork variants: a distance of zero between a branch end and a child means equal coordinates
+        (instances of the abstract lemma `sum-of-three-squares-zero`, itself an obligation of the property)"""
+        from pyvc import lemmas
+
+        if single_file(vars) or E.ghost.get("c16-coincidence-hint"):
+            return
+        E.ghost["c16-coincidence-hint"] = True
+        J = vars["x"].fields["ndata"].items
+        for p, lst in _kids(vars).items():
+            if len(lst) < 2:
+                continue
+            for (_, br) in lst:
+                B = br.fields["attach"].fields["ndata"].items
+                q = B["x"].shape[0]
+                for (c, _) in lst:
+                    d = [z3.simplify(val(B[a], q - 1) - val(J[a], c)) for a in "xyz"]
+                    if all(z3.is_rational_value(t) for t in d):
+                        continue
+                    lemmas.use(E, "sum-of-three-squares-zero", *d)
+
     VARIANTS = {}
     for q in (2, 3, 4):
         VARIANTS[f"stem-with-{q}-samples"] = setup([-1, 0], [q])
     for q1, q2 in ((2, 3), (3, 2), (3, 3), (4, 3)):
         VARIANTS[f"two-branches-in-sequence-{q1}-{q2}-samples"] = setup([-1, 0, 1], [q1, q2])
+    # several branches under one junction (pair() decides by position which branch goes to which child); the per-junction branch
+    # list is stored in child order or permuted; children may coincide (nothing says they are apart)
+    for (q1, q2), perm in (((3, 3), (0, 1)), ((2, 3), (1, 0)), ((3, 2), (1, 0))):
+        VARIANTS[f"fork-of-two-{q1}-{q2}-samples-stored-{''.join(map(str, perm))}"] = setup([-1, 0, 0], [q1, q2], {0: perm}, exact=True)
+    for perm in ((0, 1, 2), (1, 2, 0)):
+        VARIANTS[f"fork-of-three-3-2-3-samples-stored-{''.join(map(str, perm))}"] = setup([-1, 0, 0, 0], [3, 2, 3], {0: perm}, exact=True)
+    VARIANTS["stem-then-fork-of-two-2-3-3-samples-stored-10"] = setup([-1, 0, 1, 1], [2, 3, 3], {1: (1, 0)}, exact=True)
 
     R.add(f"{BT}:BranchTreeAssembler.__call__", prop="C16",
           variants=VARIANTS,
@@ -475,6 +562,270 @@ def register_assembler(R):
           ensures=[("result-is-a-new-tree", post_is_tree),
                    ("node-count-is-junctions-plus-all-interior-samples", post_count),
                    ("rows-are-interior-samples-then-end-junction-chained-by-pid", post_rows)],
+          options=dict(hints={"post/rows-are-interior-samples-then-end-junction-chained-by-pid": coincidence_hint}),
           notes="fixed shapes per variant: a root with one branch of q in {2,3,4} resampled points, and two branches in sequence "
                 "(junction 0 -> 1 -> 2) of (q1,q2) points; all coordinates, radii and types symbolic; every input object frozen. "
-                "pair() is inlined (1 x 1 distance matrix per junction); trees with several branches per junction stay bounded-only")
+                "forks of two / three branches under the root and a fork of two below a stem, the branch lists stored in child order or "
+                "permuted (identity, swap, a 3-cycle), every branch ending exactly on its child (shared symbols), "
+                "children free to coincide; pair() is inlined (np.argmin forks on the comparisons)")
+
+
+# ===========================================================================================================================
+# tree level: Resampler.__call__ / TreeSmoother.__call__ on trees of a fixed CONCRETE topology (every attribute symbolic).
+# BranchTree.from_tree, get_branches, the traversal, the per-branch resampler / smoother and the assembler are executed from their
+# current source (nothing between the carrier and the numpy models is assumed).
+TT = "swcgeom/transforms/tree.py"
+MAX_GAPS = 2  # fixed-size bound of the tree-level resampling variants: every branch is at most MAX_GAPS spacings long
+
+
+def fixed_topology_tree(S, pids, name="t"):
+    """a Tree whose id / pid columns are the given concrete topology (id[i] = i), type / x / y / z / r symbolic; frozen"""
+    from contracts.common import sym_tree_fixed
+
+    n = len(pids)
+    t = sym_tree_fixed(S, n, name, frozen=True)
+    for cname, vals in (("id", list(range(n))), ("pid", [int(p) for p in pids])):
+        a = _frozen(NArr((n,), vals, "int"))
+        nd = t.fields["ndata"]
+        fz, nd.frozen = nd.frozen, False
+        nd.items[cname] = a
+        nd.frozen = fz
+    return t
+
+
+def topo_branches(pids):
+    """(critical nodes, branches) of a parent vector: critical = root, furcations, tips; a branch = node sequence from one critical
+    node to the next (the textbook decomposition, independent of the library)"""
+    n = len(pids)
+    kids = {i: [j for j in range(n) if pids[j] == i] for i in range(n)}
+    crit = [i for i in range(n) if pids[i] < 0 or len(kids[i]) != 1]
+    out = []
+    for c in crit:
+        for k in kids[c]:
+            chain = [c, k]
+            while chain[-1] not in crit:
+                chain.append(kids[chain[-1]][0])
+            out.append(chain)
+    return crit, out
+
+
+def _tree_cols(t):
+    nd = t.fields.get("ndata") if isinstance(t, Obj) else None
+    if not isinstance(nd, PDict) or nd.items is None:
+        return None
+    return nd.items
+
+
+def _ints(a):
+    if isinstance(a, NArr) and a.ndim == 1 and all(isinstance(x, int) and not isinstance(x, bool) for x in a.items):
+        return list(a.items)
+    return None
+
+
+def branch_geometry(E, cols, seq):
+    """(P, c, L) of the polyline through the nodes `seq` of the tree columns `cols` (see knots)"""
+    P = [[to_z3(cols[a].items[j], "real") for a in "xyzr"] for j in seq]
+    c = [z3.RealVal(0)]
+    for j in range(len(seq) - 1):
+        sq = sum(((P[j + 1][a] - P[j][a]) * (P[j + 1][a] - P[j][a]) for a in range(3)), z3.RealVal(0))
+        c.append(c[-1] + to_z3(E.sqrt(Sym(sq, "real"), nonneg_known=True), "real"))
+    return P, c, c[-1]
+
+
+INLINE_TREE = ["swc_utils/base.py:traverse", "swc_utils/base.py:_traverse_dfs", ":Tree.traverse", ":Tree.Node.traverse", ":to_sub_topology", ":Tree.get_branches",
+               ":Tree.Node.parent", ":Tree.Node.children", ":Node.is_furcation", ":Node.is_tip", ":BranchTree.from_tree", ":Node.distance"]
+
+
+def _ext8():
+    from pyvc import ext_C08
+
+    return ext_C08
+
+
+def register_tree_level(R):
+    # ------------------------------------------------------------------ Resampler.__call__ (through IsometricResampler)
+    def rs_setup(pids):
+        def f(S):
+            from swcgeom.transforms.tree import IsometricResampler
+
+            d = S.real("distance")
+            S.assume(d.z > 0)
+            me = S.new(IsometricResampler, d)
+            return dict(self=me, x=fixed_topology_tree(S, pids), distance=d)
+
+        return f
+
+    def rs_pre(E, v, o):
+        cols = _tree_cols(v["x"])
+        d = to_z3(v["distance"], "real")
+        out = [d > 0]
+        for seq in topo_branches(_ints(cols["pid"]))[1]:
+            P, c, L = branch_geometry(E, cols, seq)
+            out += [L > 0, L / d <= MAX_GAPS]
+        return z3.And(*out)
+
+    def rs_view(E, v, o):
+        """(original columns, result columns, [(branch node sequence, result rows of the branch incl. both ends)]) when the result
+        is a tree table with the same critical nodes joined by chains in the same way, else None.  Chains only are matched by
+        structure here: root first, the branches in the order of the textbook decomposition."""
+        from swcgeom.core import Tree
+
+        r = v["result"]
+        oc, rc = _tree_cols(o["x"]), _tree_cols(r)
+        if rc is None or not (isinstance(r, Obj) and issubclass(r.cls, Tree)):
+            return None
+        ids, ps = _ints(rc.get("id")), _ints(rc.get("pid"))
+        if ids is None or ps is None or ids != list(range(len(ids))) or not ids or ps[0] != -1:
+            return None
+        if any(not isinstance(a, NArr) or a.shape != (len(ids),) for a in rc.values()) or any(not 0 <= q < k for k, q in enumerate(ps) if k):
+            return None
+        pids = _ints(oc["pid"])
+        crit, brs = topo_branches(pids)
+        rcrit, rbrs = topo_branches(ps)
+        if len(rcrit) != len(crit) or len(rbrs) != len(brs):
+            return None
+        # match critical nodes: root with root, then along the branches in order (the k-th branch leaving a matched node with the
+        # k-th chain leaving its image)
+        img, pairs, todo = {crit[0]: rcrit[0]}, [], [crit[0]]
+        while todo:
+            c = todo.pop()
+            mine = [b for b in brs if b[0] == c]
+            theirs = [b for b in rbrs if b[0] == img[c]]
+            if len(mine) != len(theirs):
+                return None
+            for b, rb in zip(mine, theirs):
+                img[b[-1]] = rb[-1]
+                pairs.append((b, rb))
+                todo.append(b[-1])
+        return oc, rc, pairs, img
+
+    def rs_fresh(E, v, o):
+        r = v["result"]
+        rc = _tree_cols(r)
+        return rc is not None and r.uid not in E.entry_uids and all(a.root().uid not in E.entry_uids for a in rc.values() if hasattr(a, "root"))
+
+    def rs_critical(E, v, o):
+        vw = rs_view(E, v, o)
+        if vw is None:
+            return False
+        oc, rc, pairs, img = vw
+        out = []
+        for a, k in img.items():
+            for cname in ATTRS:
+                out.append(to_z3(rc[cname].items[k], oc[cname].kind) == to_z3(oc[cname].items[a], oc[cname].kind))
+        return z3.And(*out)
+
+    def rs_samples(which):
+        def f(E, v, o):
+            vw = rs_view(E, v, o)
+            if vw is None:
+                return False
+            oc, rc, pairs, img = vw
+            out = []
+            for b, rb in pairs:
+                P, c, L = branch_geometry(E, oc, b)
+                m = len(rb) - 1
+                for k in range(1, m):
+                    t = z3.RealVal(k) * L / z3.RealVal(m)
+                    out.append(on_polyline(P, c, which, t, to_z3(rc["xyzr"[which]].items[rb[k]], "real")))
+            return z3.And(*out) if out else True
+
+        return f
+
+    def rs_step(E, v, o):
+        vw = rs_view(E, v, o)
+        if vw is None:
+            return False
+        oc, rc, pairs, img = vw
+        d = to_z3(o["distance"], "real")
+        return z3.And(*[branch_geometry(E, oc, b)[2] / z3.RealVal(len(rb) - 1) <= d for b, rb in pairs])
+
+    def rs_step_hint(E, vars):
+        """proof step: L/d <= m and d > 0 give L <= m*d (instances of the abstract lemma `quotient-bound`, an obligation of its own)"""
+        from pyvc import lemmas
+
+        if "quotient-bound" not in lemmas.LEMMAS:
+            lemmas.lemma("quotient-bound", 3)(lambda L, d, m: z3.Implies(z3.And(d > 0, L / d <= m), L <= m * d))
+        x0 = vars.get("x")
+        cols = _tree_cols(x0) if isinstance(x0, Obj) else None
+        if cols is None or _ints(cols.get("pid")) is None or "distance" not in vars:
+            return
+        d = to_z3(vars["distance"], "real")
+        for seq in topo_branches(_ints(cols["pid"]))[1]:
+            L = branch_geometry(E, cols, seq)[2]
+            for m in range(1, MAX_GAPS + 1):
+                lemmas.use(E, "quotient-bound", L, d, z3.RealVal(m))
+
+    CHAINS = {"chain-of-2": [-1, 0], "chain-of-3": [-1, 0, 1]}
+    R.add(f"{TT}:Resampler.__call__", prop="C16",
+          variants={nm: rs_setup(p) for nm, p in CHAINS.items()},
+          requires=[("spacing-positive-and-every-branch-of-positive-length-at-most-%d-spacings" % MAX_GAPS, rs_pre)],
+          ensures=[("result-is-a-new-tree-in-fresh-storage", rs_fresh),
+                   ("root-furcations-and-tips-kept-with-their-attributes-and-connectivity", rs_critical),
+                   ("samples-on-polyline-at-equal-arc-steps/x", rs_samples(0)),
+                   ("samples-on-polyline-at-equal-arc-steps/y", rs_samples(1)),
+                   ("samples-on-polyline-at-equal-arc-steps/z", rs_samples(2)),
+                   ("radius-linear-in-arc-length-between-knots", rs_samples(3)),
+                   ("step-not-longer-than-spacing", rs_step)],
+          options=dict(split_small_counts=True, models=_ext8().MODELS, inline_calls=INLINE_TREE, hints={"post/step-not-longer-than-spacing": rs_step_hint}),
+          notes="FIXED topology and FIXED size: unbranched trees of 2 and 3 nodes (one branch of 2 or 3 knots, every coordinate / radius / "
+                "type symbolic, segments may have length zero), self = IsometricResampler as its real constructor builds it, spacing "
+                "symbolic, branch length in (0, %d spacings] so that the sample count is case-split (2..%d samples); from_tree, the branch "
+                "resampler and the assembler are inlined.  Forks are covered at the assembler (fork variants) and by the bounded stand-in." % (MAX_GAPS, MAX_GAPS + 1))
+
+    # ------------------------------------------------------------------ TreeSmoother.__call__
+    def sm_setup(pids):
+        def f(S):
+            from swcgeom.transforms.branch import BranchConvSmoother
+            from swcgeom.transforms.tree import TreeSmoother
+
+            w = S.int("window")
+            S.assume(w.z >= 1)
+            return dict(self=S.new(TreeSmoother, w), x=fixed_topology_tree(S, pids))
+
+        return f
+
+    def sm_view(v, o):
+        oc, rc = _tree_cols(o["x"]), _tree_cols(v["result"])
+        if rc is None or set(rc) != set(oc):
+            return None
+        n = len(_ints(oc["pid"]))
+        if any(not isinstance(a, NArr) or a.shape != (n,) for a in rc.values()):
+            return None
+        return oc, rc, n
+
+    def sm_fresh(E, v, o):
+        r = v["result"]
+        vw = sm_view(v, o)
+        return vw is not None and r.uid != o["x"].uid and r.uid not in E.entry_uids and all(a.root().uid not in E.entry_uids for a in vw[1].values())
+
+    def sm_same(names):
+        def f(E, v, o):
+            vw = sm_view(v, o)
+            if vw is None:
+                return False
+            oc, rc, n = vw
+            return z3.And(*[to_z3(rc[c].items[k], oc[c].kind) == to_z3(oc[c].items[k], oc[c].kind) for c in names for k in range(n)])
+
+        return f
+
+    def sm_ends(E, v, o):
+        vw = sm_view(v, o)
+        if vw is None:
+            return False
+        oc, rc, n = vw
+        crit, _ = topo_branches(_ints(oc["pid"]))
+        return z3.And(*[to_z3(rc[c].items[k], "real") == to_z3(oc[c].items[k], "real") for c in "xyz" for k in crit])
+
+    SHAPES = {"single-node": [-1], "chain-of-2": [-1, 0], "chain-of-4": [-1, 0, 1, 2], "fork-at-root": [-1, 0, 0], "stem-then-fork": [-1, 0, 1, 1],
+              "two-edge-stem-then-fork-with-long-arms": [-1, 0, 1, 2, 2, 3, 4], "root-fork-with-a-fork-below": [-1, 0, 0, 1, 1, 2]}
+    R.add(f"{TT}:TreeSmoother.__call__", prop="C16",
+          variants={nm: sm_setup(p) for nm, p in SHAPES.items()},
+          ensures=[("result-is-a-new-tree-in-fresh-storage", sm_fresh),
+                   ("node-count-and-connectivity-kept", sm_same(("id", "pid"))),
+                   ("radii-and-types-unchanged", sm_same(("r", "type"))),
+                   ("root-furcations-and-tips-keep-their-position", sm_ends)],
+          options=dict(models=_ext8().MODELS, inline_calls=INLINE_TREE),
+          notes="FIXED topology (7 shapes up to 7 nodes, all attributes symbolic, window symbolic >= 1, self = TreeSmoother as its real constructor builds it); the input tree is frozen (a write to it "
+                "is a failed frame obligation); get_branches, the traversal and BranchConvSmoother.__call__ are inlined; "
+                "scipy.signal.convolve only through its output length")
